@@ -162,8 +162,8 @@ Proof.
     by rewrite (omap_insert_Some _ _ _ _ (Bind e d (Some (mode, false)))).
 Qed.
 
-Lemma read_refines s fid ts :
-  WF s → refines s (do_read s fid ts) (sp_read (abs s) fid ts).
+Lemma read_refines s fid cnt ts :
+  WF s → refines s (do_read s fid cnt ts) (sp_read (abs s) fid cnt ts).
 Proof.
   intros Hwf. unfold do_read, sp_read.
   pose proof (get_ref_wf s fid Hwf) as Hg.
@@ -175,7 +175,7 @@ Proof.
   destruct (Hf h eq_refl) as [Hown Hdir].
   destruct (N.land (s_mode sf) 3 =? 1); [by rsame|].
   rewrite Hdir. destruct d; [|by rsame].
-  destruct (f_done h) eqn:Hdone; [by rsame|].
+  destruct (f_done h || (cnt =? 0)) eqn:Hdone; [by rsame|].
   destruct (fs_err (tokn ts 0)); [by rsame|].
   cbn. split_and!; [|done|].
   - eapply WF_insert; [..|exact Hwf]; [by sproj|].
